@@ -44,8 +44,9 @@ def obligations(tier: str, oracle: str = ORACLE) -> list[dict]:
     obs = []
 
     def ob(kinds: list, W: int, npre: int, timeout: int, codes: list | None = None, prepop: bool = True,
-           pin: dict | None = None, narrow: bool = False) -> None:
+           pin: dict | None = None, narrow: bool = False, tag: str = '', **extra: object) -> None:
         sh = {'W': W, 'npre': npre, 'kinds': kinds, 'oracle': oracle, 'prepop': prepop}
+        sh.update(extra)
         if narrow:
             sh['narrow'] = True
         if pin:
@@ -56,7 +57,7 @@ def obligations(tier: str, oracle: str = ORACLE) -> list[dict]:
                                                    '' if codes is None else '/codes' + ''.join(map(str, codes)),
                                                    ('' if prepop else '/nopop') +
                                                    ('' if not pin else '/pin' + '.'.join('%s=%s' % kv for kv in sorted(pin.items()))) +
-                                                   ('/narrow' if narrow else '')),
+                                                   ('/narrow' if narrow else '') + tag),
                     'shard': sh, 'timeout': timeout})
 
     NOBLK = [1, 2, 3]   # get_inverse of a CircuitGate needs numerics (DaggerGate): tagged gates have none
@@ -75,6 +76,11 @@ def obligations(tier: str, oracle: str = ORACLE) -> list[dict]:
         for k1, k2 in (('renumber', 'pop'), ('pop_qudit', 'insert_gate')):
             ob([k1, k2], 3, 1, 200, [2], False, None, True)
         ob(['insert_qudit', 'replace_gate'], 2, 1, 200, [2], False, None, True)
+        # a batch of two replacements needs two operations in the pre-state (points in either order, replacements that
+        # change the number of cycles)
+        ob(['batch_replace'], 2, 2, 300, [1, 2], False, None, True, '/widen', br_modes=[0, 2, 3])
+        ob(['batch_replace'], 2, 3, 300, [1], False, None, True, '/widen', br_modes=[0, 3])
+        ob(['batch_pop'], 2, 2, 300, [1, 2], False, None, True)
         # a replace that re-keys the dependency node, then a removal that deletes a cycle (3-op pre-states)
         for q in (0, 1):      # pre-state pattern 1-qudit, 2-qudit, 1-qudit op (symbolic locations and cycles)
             ob(['replace_perm', 'pop'], 2, 3, 240, [1, 2], False, {'0': 0, '1': q, '5': 1, '10': 0}, True)
